@@ -204,7 +204,7 @@ def main():
             "enable": "SYLVIA_VERIF_HARNESS=/verif/harness/hook/hook_main.rs cargo test --offline -p sylvia-derive --features verif-hook --lib -- verif_hook::verif_entry --exact",
             "baseline_off_cmd": "cd /repo && cargo test --workspace --no-fail-fast --offline",
             "source_commits": ["f0dc71d"],
-            "fix_commits": ["a51e7a3", "fead2e3", "dbb2669", "e4181bc", "dd80324", "43435f7", "3dc7e41", "b235c27", "a0acd45", "0e58e66", "ba1f417", "db582f4", "3b66a31", "7df290f", "18620eb", "52fc452"],
+            "fix_commits": ["a51e7a3", "fead2e3", "dbb2669", "e4181bc", "dd80324", "43435f7", "3dc7e41", "b235c27", "a0acd45", "0e58e66", "ba1f417", "db582f4", "3b66a31", "7df290f", "18620eb", "52fc452", "f2bb4b0"],
             "add_only": True,
         },
         "engines": [
